@@ -536,12 +536,12 @@ Proof.
   rewrite !ws_nth_error_map, !nth_error_refreshed, !ws_nth_error_map, !nth_error_refreshed.
   destruct (nth_error w0 i) as [it|]; [|reflexivity]. simpl. f_equal.
   unfold refreshed, updf.
+  destruct it as [o s un v d].
   destruct need2; [rewrite (Hn eq_refl)|destruct need1];
-    destruct (Nat.eqb i nS), (Nat.eqb i nP), (Nat.eqb i nE).
-  all: cbv beta iota.
-  all: unfold hf, sv, su, set_value, set_unit.
-  all: cbn [i_orig i_sess i_unit i_value i_descr].
-Admitted.
+    destruct (Nat.eqb i nS), (Nat.eqb i nP), (Nat.eqb i nE);
+    cbv beta iota delta [hf sv su set_value set_unit i_orig i_sess i_unit i_value i_descr];
+    rewrite ?g_idem; reflexivity.
+Qed.
 
 End TwoPass.
 
